@@ -350,6 +350,16 @@ func registerProtoCodec(p *Program) {
 		}
 		return Tuple{packAny(m, fn, iv), Iface{}}
 	}
+	I["github.com/cosmos/gogoproto/proto.Equal"] = func(m *Machine, fr *Frame, fn *ssa.Function, a []Value) Value {
+		x, y := a[0].(Iface), a[1].(Iface)
+		if x.t == nil || y.t == nil {
+			return m.tb.Bool(x.t == nil && y.t == nil)
+		}
+		if !types.Identical(x.t, y.t) {
+			return m.tb.Bool(false)
+		}
+		return m.structEq(x.v, y.v)
+	}
 	// vp.Codec(): a codec object for harnesses that need the real-codec behaviour
 	I[vpPath+"Codec"] = func(m *Machine, fr *Frame, fn *ssa.Function, a []Value) Value {
 		return Iface{t: m.p.ntype("native.ProtoCodec"), v: &ProtoCodecObj{}}
